@@ -40,22 +40,34 @@ pub const NFAULT: usize = 24;
 pub struct Distinct {
     exact: HashSet<u64>,
     sampled: HashSet<u64>,
+    cap: usize,
 }
 
 const DISTINCT_CAP: usize = 6_000_000;
+/// per-worker accumulators are merged at the end; they get a smaller cap so
+/// that 16 of them stay small
+const WORKER_CAP: usize = 600_000;
 
 impl Default for Distinct {
     fn default() -> Self {
         Distinct {
             exact: HashSet::new(),
             sampled: HashSet::new(),
+            cap: DISTINCT_CAP,
         }
     }
 }
 
 impl Distinct {
+    pub fn for_worker() -> Distinct {
+        Distinct {
+            exact: HashSet::new(),
+            sampled: HashSet::new(),
+            cap: WORKER_CAP,
+        }
+    }
     pub fn insert(&mut self, d: u64) {
-        if self.exact.len() < DISTINCT_CAP {
+        if self.exact.len() < self.cap {
             self.exact.insert(d);
         } else if d & 63 == 0 && self.sampled.len() < DISTINCT_CAP && !self.exact.contains(&d) {
             self.sampled.insert(d);
@@ -75,7 +87,7 @@ impl Distinct {
         self.exact.len() + self.sampled.len()
     }
     pub fn saturated(&self) -> bool {
-        self.exact.len() >= DISTINCT_CAP
+        self.exact.len() >= self.cap || !self.sampled.is_empty()
     }
 }
 
@@ -341,6 +353,8 @@ pub fn run_batch<P: Prop>(p: &P, tier: Tier, seed: u64, nruns: u64) -> BatchResu
         for _ in 0..nw {
             s.spawn(|| {
                 let mut agg = Agg::default();
+                agg.digests = Distinct::for_worker();
+                agg.nontrivial = Distinct::for_worker();
                 loop {
                     let start = next.fetch_add(16, Ordering::Relaxed);
                     if start >= nruns {
